@@ -1,6 +1,9 @@
 import PetgraphModel.Proofs.C11
 import PetgraphModel.Proofs.C11Models
 import PetgraphModel.Proofs.C11W2
+import PetgraphModel.Proofs.C11W3Floyd
+import PetgraphModel.Proofs.C11W3Fnc
+import PetgraphModel.Proofs.C11W3Spfa
 /-
 C11 — `bellman_ford`, `spfa`, `floyd_warshall(_path)`, `find_negative_cycle` are exact with
 negative costs.
@@ -18,7 +21,7 @@ ties to /repo by exact differential execution.
 -/
 namespace PetgraphModel.C11T
 open PetgraphModel PetgraphModel.MGraph PetgraphModel.Oracle PetgraphModel.C11J PetgraphModel.C11P
-open PetgraphModel.C11M PetgraphModel.C11MP PetgraphModel.C11W2
+open PetgraphModel.C11M PetgraphModel.C11MP PetgraphModel.C11W2 PetgraphModel.C11W3
 
 /-! ## Part 1 — the judges -/
 
@@ -194,8 +197,9 @@ theorem C11_bellman_ford_tree (v : View) (hv : ViewArcs v) (s : Nat) (st : BF)
     ∀ x y, tget st.d x = some y → TreeWalk v.g (tget st.p) s x y :=
   bellmanFord_tree v hv s st h
 
-/-- **find_negative_cycle answers `Some` exactly when a negative cycle is reachable** (model; the
-shape of the returned sequence is the open finding D15, see the counterexample below) -/
+/-- **find_negative_cycle answers `Some` exactly when a negative cycle is reachable** (model; that
+the returned sequence is a closed walk of negative cost — the former finding D15, repaired in /repo —
+is `C11_find_negative_cycle_closed_walk` below) -/
 theorem C11_find_negative_cycle_some_iff (v : View) (hv : ViewArcs v) (hwf : v.g.WellFormed) (s : Nat)
     (hs : s ∈ v.g.nodes) : findNegativeCycle v s ≠ .none ↔ NegCycleReachable v.g s := by
   rw [← C11_bellman_ford_err_iff v hv hwf s hs]
@@ -228,8 +232,9 @@ theorem C11_spfa_err (B : Meas) (v : View) (hv : ViewArcs v) (hwf : v.g.WellForm
     (h : spfa B v s = some none) : NegCycleReachable v.g s :=
   spfa_err B v hv hwf s hs hnb hfit h
 
-/-- **floyd_warshall, `Ok` half** (all well-formed views, every cost type that is wide against
-`2^|V| · max |cost|`, written `dbl |V| Wm`): if the model answers `Ok`, then for every node `i` the
+/-- **floyd_warshall, `Ok` half** (superseded by `C11_floyd_ok_linear` below, which needs only
+`2·|V|·Wm < max()`; kept because wave-2 proofs build on its invariant) (all well-formed views, every
+cost type that is wide against `2^|V| · max |cost|`, written `dbl |V| Wm`): if the model answers `Ok`, then for every node `i` the
 stored entries of row `i` are the exact shortest-walk costs, "no entry" (`max()`) stands exactly
 for the pairs without a walk, and no negative cycle is reachable from `i`.  Proof: entries are
 costs of real walks; once `k` has been the intermediate node, every row is a feasible potential
@@ -431,5 +436,163 @@ theorem C11_find_negative_cycle_d15_witness_repaired :
     (match findNegativeCycle d15View 1 with | .some seq => checkNegClosedWalk d15View.g seq | _ => false) = true ∧
     bellmanFord d15View 1 = none := by
   decide
+
+/-! ## wave 3 — `floyd_warshall` under a LINEAR width hypothesis; `find_negative_cycle` returns a
+negative closed walk (repaired code); one iff for `spfa` -/
+
+/-- **floyd_warshall(_path), `Ok` half under a linear width hypothesis** (replaces the exponential
+`dbl |V| Wm` of `C11_floyd_ok` / `C11_floyd_prev*`): all costs within `[−Wm, Wm]`,
+`2·|V|·Wm < max()` and `min() ≤ −2·|V|·Wm`.  If the model answers `Ok`, the graph has no negative
+cycle and, for every row `i`: the stored entries are the exact shortest-walk costs, no entry (`max()`)
+stands exactly for the pairs without a walk, the entries `prev[i][·]` lead from `i` to every `j` with a
+finite distance along arcs of the graph at exactly that distance, and off the diagonal `prev[i][j]` is
+absent exactly for the unreachable pairs and otherwise the penultimate node of a shortest walk.
+Proof (`Proofs/C11W3Floyd.lean`): at the pass boundaries, in the branch without a negative diagonal
+entry, every stored entry is the cost of a walk with interior in `K` (the intermediate nodes used so
+far) and is at most the cost of every simple path with interior in `K`; hence closed walks through
+`K` are non-negative, every stored entry is the cost of a *simple* path and so at most `(|V|−1)·Wm` in
+absolute value — the bound does not double, no sum of the next pass overflows. -/
+theorem C11_floyd_ok_linear (B : Meas) (v : View) (hwf : v.g.WellFormed) (Wm : Int) (hWm : 0 ≤ Wm)
+    (hW : ∀ e ∈ v.g.edges, -Wm ≤ e.w ∧ e.w ≤ Wm)
+    (hfit : 2 * ((v.g.nodes.length : Int) * Wm) < B.max ∧ B.min ≤ -(2 * ((v.g.nodes.length : Int) * Wm)))
+    (st : FW) (h : floydWarshall B v = some st) :
+    ¬ NegCycle v.g ∧
+    ∀ i ∈ v.g.nodes,
+      (∀ j y, tget st.d (i, j) = some y → IsShortest v.g i j y) ∧
+      (∀ j, tget st.d (i, j) = none ↔ ¬ ∃ c, WalkCost v.g i j c) ∧
+      (∀ j y, tget st.d (i, j) = some y →
+        TreeWalk v.g (fun x => if x == i then none else tget st.p (i, x)) i j y) ∧
+      (∀ j, j ≠ i →
+        (tget st.p (i, j) = none ↔ ¬ ∃ c, WalkCost v.g i j c) ∧
+        (∀ q, tget st.p (i, j) = some q →
+          ∃ a w, IsShortest v.g i q a ∧ tget st.d (i, q) = some a ∧ (q, j, w) ∈ v.g.arcs ∧
+            tget st.d (i, j) = some (a + w) ∧ IsShortest v.g i j (a + w))) := by
+  obtain ⟨hrows, hno⟩ := floydWarshall_ok_lin B v hwf Wm hWm hW hfit st h
+  refine ⟨hno, fun i hi => ⟨(hrows i hi).1, (hrows i hi).2, ?_, ?_⟩⟩
+  · exact floydWarshall_prev_lin B v hwf Wm hWm hW hfit st h i hi
+  · exact floydWarshall_prev_arc_lin B v hwf Wm hWm hW hfit st h i hi
+
+/-- **floyd_warshall, `Err` half under the linear width hypothesis**: a negative cycle anywhere (a
+negative self-loop included) makes the model answer `Err(NegativeCycle)` — a negative diagonal entry
+is absorbing, and until one appears the entries obey the linear bound, so the relaxation that
+produces it is never skipped as overflowing -/
+theorem C11_floyd_err_linear (B : Meas) (v : View) (hwf : v.g.WellFormed) (Wm : Int) (hWm : 0 ≤ Wm)
+    (hW : ∀ e ∈ v.g.edges, -Wm ≤ e.w ∧ e.w ≤ Wm)
+    (hfit : 2 * ((v.g.nodes.length : Int) * Wm) < B.max ∧ B.min ≤ -(2 * ((v.g.nodes.length : Int) * Wm)))
+    (hneg : NegCycle v.g) : floydWarshall B v = none :=
+  floydWarshall_detects_lin B v hwf Wm hWm hW hfit hneg
+
+/-- **floyd_warshall errs exactly when the graph contains a negative cycle**, linear width hypothesis -/
+theorem C11_floyd_err_iff_linear (B : Meas) (v : View) (hwf : v.g.WellFormed) (Wm : Int) (hWm : 0 ≤ Wm)
+    (hW : ∀ e ∈ v.g.edges, -Wm ≤ e.w ∧ e.w ≤ Wm)
+    (hfit : 2 * ((v.g.nodes.length : Int) * Wm) < B.max ∧ B.min ≤ -(2 * ((v.g.nodes.length : Int) * Wm))) :
+    floydWarshall B v = none ↔ NegCycle v.g := by
+  constructor
+  · intro h
+    have hM : 0 ≤ (v.g.nodes.length : Int) * Wm := Int.mul_nonneg (Int.natCast_nonneg _) hWm
+    exact floydWarshall_err B (by have := hfit.1; omega) v h
+  · exact floydWarshall_detects_lin B v hwf Wm hWm hW hfit
+
+/-- the form "no negative cycle ∧ linear bound ⇒ `Ok` with exact distances, `max()` exactly for the
+unreachable pairs, and `prev` spelling out shortest paths" -/
+theorem C11_floyd_exact_linear (B : Meas) (v : View) (hwf : v.g.WellFormed) (Wm : Int) (hWm : 0 ≤ Wm)
+    (hW : ∀ e ∈ v.g.edges, -Wm ≤ e.w ∧ e.w ≤ Wm)
+    (hfit : 2 * ((v.g.nodes.length : Int) * Wm) < B.max ∧ B.min ≤ -(2 * ((v.g.nodes.length : Int) * Wm)))
+    (hno : ¬ NegCycle v.g) :
+    ∃ st, floydWarshall B v = some st ∧
+      ∀ i ∈ v.g.nodes,
+        (∀ j y, tget st.d (i, j) = some y → IsShortest v.g i j y) ∧
+        (∀ j, tget st.d (i, j) = none ↔ ¬ ∃ c, WalkCost v.g i j c) ∧
+        (∀ j y, tget st.d (i, j) = some y →
+          TreeWalk v.g (fun x => if x == i then none else tget st.p (i, x)) i j y) := by
+  cases h : floydWarshall B v with
+  | none => exact absurd ((C11_floyd_err_iff_linear B v hwf Wm hWm hW hfit).1 h) hno
+  | some st =>
+    obtain ⟨_, hrows⟩ := C11_floyd_ok_linear B v hwf Wm hWm hW hfit st h
+    exact ⟨st, rfl, fun i hi => ⟨(hrows i hi).1, (hrows i hi).2.1, (hrows i hi).2.2.1⟩⟩
+
+/-- the linear width hypothesis is met by `i32` for, e.g., 1000 nodes and costs of magnitude at
+most `10^6` (the exponential one of `C11_floyd_ok` allowed at most 24–30 nodes) -/
+example : 2 * (((1000 : Nat) : Int) * 1000000) < Meas.i32.max ∧
+    Meas.i32.min ≤ -(2 * (((1000 : Nat) : Int) * 1000000)) := by decide
+
+/-- **reading of the checker of the judge**: `checkNegClosedWalk g seq = true` exactly when the
+consecutive nodes of `seq`, read cyclically (`v0 → v1 → … → vk-1 → v0`; a single node needs a
+self-loop), are joined by arcs of negative total cost — `ClosedWalkCost` is the inductive
+spec-level notion (`Proofs/C11W3Fnc.lean`) -/
+theorem C11_checkNegClosedWalk_reading (g : MGraph) (seq : List Nat) (h : checkNegClosedWalk g seq = true) :
+    ∃ c, c < 0 ∧ ClosedWalkCost g seq c :=
+  checkNegClosedWalk_reading g seq h
+
+theorem C11_checkNegClosedWalk_iff (g : MGraph) (seq : List Nat) :
+    checkNegClosedWalk g seq = true ↔ ∃ c, c < 0 ∧ ClosedWalkCost g seq c :=
+  ⟨checkNegClosedWalk_reading g seq, fun ⟨c, hc, hw⟩ => checkNegClosedWalk_complete g seq c hc hw⟩
+
+/-- a `ClosedWalkCost` is a closed walk of the graph through the first node of the sequence -/
+theorem C11_closed_walk_is_walk (g : MGraph) (seq : List Nat) (c : Int) (h : ClosedWalkCost g seq c) :
+    ∃ v0 rest, seq = v0 :: rest ∧ WalkCost g v0 v0 c :=
+  h.walk
+
+/-- **find_negative_cycle = `Some(seq)`: `seq` is a closed walk along existing arcs with negative
+total cost** (all views with `ViewArcs`, well-formed graph, all sources; model of the repaired code,
+in which the detected relaxation `pred[j] := i` is carried out before the predecessor walk).  The
+former finding D15 is thereby closed for the model: the clause that had only a counterexample is now a
+theorem.  Proof (`Proofs/C11W3Fnc.lean`): every cycle of the predecessor graph has negative cost (the
+arc that closed it was strictly improving); the predecessor walk from `j` cannot end in a node without
+predecessor — that node would be the source, still at distance `0`, and `s ⇝ i → j` would be a walk of
+at most `|V|−1` arcs cheaper than `d[j]`, impossible after `|V|−1` passes — so it closes a cycle. -/
+theorem C11_find_negative_cycle_closed_walk (v : View) (hv : ViewArcs v) (hwf : v.g.WellFormed) (s : Nat)
+    (seq : List Nat) (h : findNegativeCycle v s = .some seq) :
+    checkNegClosedWalk v.g seq = true ∧ ∃ c, c < 0 ∧ ClosedWalkCost v.g seq c :=
+  ⟨findNegativeCycle_check v hv hwf s seq h, findNegativeCycle_closed v hv hwf s seq h⟩
+
+/-- **spfa errs exactly when a negative cycle is reachable from the source — one iff from one
+input-side bound.**  `M` bounds the length of the out-lists, `L = |V|·node_bound·M + |V|`
+(`spfaLen v M`); all costs within `[−Wm, Wm]`, `L·Wm < max()` and `min() ≤ −L·Wm`.  The bound is not
+linear in `|V|`, and cannot be (next theorem).  Proof (`Proofs/C11W3Spfa.lean`): every label ever
+stored is the cost of a walk from the source with at most `|V|·node_bound·M` arcs (at most
+`|V|·node_bound` pops, each relaxing at most `M` arcs), so nothing overflows: `C11_spfa_ok` and
+`C11_spfa_err` both apply. -/
+theorem C11_spfa_iff (B : Meas) (v : View) (hv : ViewArcs v) (hwf : v.g.WellFormed) (s : Nat)
+    (hs : s ∈ v.g.nodes) (hnb : v.g.nodes.length ≤ v.nb) (M : Nat) (hM : ∀ a, (v.outOf a).length ≤ M)
+    (Wm : Int) (hWm : 0 ≤ Wm) (hW : ∀ e ∈ v.g.edges, -Wm ≤ e.w ∧ e.w ≤ Wm)
+    (hfit : ((v.g.nodes.length * v.nb * M + v.g.nodes.length : Nat) : Int) * Wm < B.max ∧
+      B.min ≤ -(((v.g.nodes.length * v.nb * M + v.g.nodes.length : Nat) : Int) * Wm)) :
+    spfa B v s = some none ↔ NegCycleReachable v.g s :=
+  spfa_iff_wm B v hv hwf s hs hnb M hM Wm hWm hW hfit
+
+/-- the same from the hypothesis that the walks from the source with at most `L` arcs fit -/
+theorem C11_spfa_iff_walks (B : Meas) (v : View) (hv : ViewArcs v) (hwf : v.g.WellFormed) (s : Nat)
+    (hs : s ∈ v.g.nodes) (hnb : v.g.nodes.length ≤ v.nb) (M : Nat) (hM : ∀ a, (v.outOf a).length ≤ M)
+    (hfit : ∀ x c j, j ≤ v.g.nodes.length * v.nb * M + v.g.nodes.length → WalkN v.g s x c j →
+      B.min ≤ c ∧ c < B.max) :
+    spfa B v s = some none ↔ NegCycleReachable v.g s :=
+  spfa_iff B v hv hwf s hs hnb M hM hfit
+
+/-- a directed ring of three arcs of cost `−1` -/
+def ringView : View :=
+  { g := { directed := true, nodes := [0, 1, 2], edges := [⟨0, 0, 1, -1⟩, ⟨1, 1, 2, -1⟩, ⟨2, 2, 0, -1⟩] },
+    nb := 3, ix := [(0, 0), (1, 1), (2, 2)],
+    out := [(0, [(1, 0)]), (1, [(2, 1)]), (2, [(0, 2)])],
+    inn := [(0, [(2, 2)]), (1, [(0, 0)]), (2, [(1, 1)])] }
+
+/-- **a bound linear in `|V|` is NOT enough for the `spfa` iff**: on the ring (`|V| = node_bound = 3`,
+`Wm = 1`) over a cost type with `max() = 7`, `min() = −7` — so `2·|V|·Wm = 6 < max()` and
+`min() ≤ −6` — a negative cycle passes through the source, but the model answers `Ok`: the labels
+sink to `−7`, the next relaxation overflows and is skipped, and the work list runs empty before any
+visit counter exceeds `node_bound` (which needs the labels to reach `−|V|·node_bound·Wm = −9`; with
+`min() ≤ −9` the model errs). -/
+theorem C11_spfa_iff_linear_bound_false_witness :
+    viewArcsB ringView = true ∧ wfB ringView.g = true ∧ ringView.g.nodes.length ≤ ringView.nb ∧
+    (2 * ((ringView.g.nodes.length : Int) * 1) < 7 ∧ (-7 : Int) ≤ -(2 * ((ringView.g.nodes.length : Int) * 1))) ∧
+    (match spfa ⟨7, -7⟩ ringView 0 with | some (some _) => true | _ => false) = true ∧
+    (match spfa ⟨7, -9⟩ ringView 0 with | some none => true | _ => false) = true ∧
+    NegCycleReachable ringView.g 0 := by
+  refine ⟨by decide, by decide, by decide, by decide, by decide, by decide, ?_⟩
+  have h01 : (0, 1, (-1 : Int)) ∈ ringView.g.arcs := by decide
+  have h12 : (1, 2, (-1 : Int)) ∈ ringView.g.arcs := by decide
+  have h20 : (2, 0, (-1 : Int)) ∈ ringView.g.arcs := by decide
+  exact ⟨0, 0, 0 + -1 + -1 + -1, WalkCost.nil 0,
+    WalkCost.snoc (WalkCost.snoc (WalkCost.snoc (WalkCost.nil 0) h01) h12) h20, by decide⟩
 
 end PetgraphModel.C11T
